@@ -13,6 +13,7 @@ mod c06;
 mod c07;
 mod c08;
 mod c09;
+mod c10;
 mod c11;
 mod c12;
 mod c13;
@@ -55,6 +56,7 @@ fn property(id: &str) -> Option<Box<dyn Property>> {
         "C07" => Box::new(c07::C07::new()),
         "C08" => Box::new(c08::C08::new()),
         "C09" => Box::new(c09::C09::new()),
+        "C10" => Box::new(c10::C10::new()),
         "C11" => Box::new(c11::C11::new()),
         "C12" => Box::new(c12::C12::new()),
         "C13" => Box::new(c13::C13::new()),
